@@ -379,5 +379,38 @@ pub proof fn theorem_c07_marked_closure_is_marked(s: S, q: GcPtr, k: int)
     assert(qcount(s, s.edges[q][k].to) == 0);
 }
 
+// ------------------------------------------------------------------------------------------ seam 4: local projections vs Inv
+/// Every K.step / K.path harness assumes only a local projection of Inv on its footprint.  These lemmas prove that Inv gives each of
+/// them for pointers a callback can hold (stack / wstack), so Kani never assumes more than the invariant provides.
+pub proof fn theorem_projection_of_held_pointers(s: S, p: GcPtr, w: GcPtr)
+    requires inv(s), s.stack.contains(p), s.wstack.contains(w)
+    ensures
+        // a strongly held pointer: allocated, live, hence a valid argument of trace / barriers / resurrect; Gray only while marking
+        isobj(s, p), s.objs[p].live, trace_pre(s, p), trace_weak_pre(s, p), upgrade_pre(s, p),
+        s.phase != Phase::Mark ==> s.objs[p].color != GcColor::Gray,
+        s.phase == Phase::Mark ==> resurrect_pre(s, p),
+        forward_barrier_pre(s, None, p), forward_barrier_pre(s, Some(p), p),
+        // a weakly held pointer: still allocated
+        isobj(s, w), trace_weak_pre(s, w), upgrade_pre(s, w),
+        s.phase != Phase::Mark ==> s.objs[w].color != GcColor::Gray,
+{
+    reveal(inv);
+    let (l, cur) = choose|l: Seq<GcPtr>, cur: int| #[trigger] inv_w(s, l, cur);
+    assert(prot(s, l, cur, p));
+}
+/// the cursor positions K.step.link and K.step.sweep_one enumerate are the ones Inv allows
+pub proof fn theorem_projection_of_cursor(s: S)
+    requires inv(s)
+    ensures s.phase != Phase::Sweep ==> s.sweep is None && s.sweep_prev is None,
+        s.phase == Phase::Sweep ==> sweep_one_pre(s),
+        s.phase == Phase::Mark ==> mark_one_pre(s),
+        s.phase == Phase::Sleep ==> s.root_needs_trace,
+{
+    reveal(inv);
+    let (l, cur) = choose|l: Seq<GcPtr>, cur: int| #[trigger] inv_w(s, l, cur);
+    if s.phase == Phase::Sweep { lemma_inv_sweep_one_pre(s, l, cur); }
+    if s.phase == Phase::Mark { lemma_inv_mark_one_pre(s, l, cur); }
+}
+
 } // mod theorems
 } // verus!
